@@ -28,15 +28,21 @@ CLAIMS = {
  "C07": (TV, "full-width correspondence Go vs extracted Coq model, 5 contexts",
          "HTML token (type, offset, length) streams and verdicts in five contexts, IsXSS, and the decoder / URL / tag / attribute predicates compared between implementation and model.",
          "Ref not independent yet"),
- "C08": (TV, "direct oracle on IsSQLi + correspondence",
-         "The consistency clauses evaluated on the implementation's return values (fingerprint empty iff false, 1-5 class characters, 'c' only last, blacklist membership, equality with the fingerprint of some context) and model correspondence of the pair and the per-context fingerprints.",
-         "theorem pending"),
+ "C08": (PROOF, "Coq theorem: verdict/fingerprint consistency for all inputs; + direct oracle on IsSQLi + correspondence",
+         "C08_consistent: for every input, if the model's IsSQLi returns (b, fp) then b = false implies fp empty, and b = true implies 1 <= |fp| <= 5, every character is a documented class character, the comment class occurs only in last position, '0' + upper(fp) is a fingerprint key of the keyword table regenerated from the source, and fp is the fingerprint of the input in at least one of the five parsing contexts evaluated on a fresh state, with a true verdict there. Derived from the cascade theorem (C12a), the fingerprint specification (classes of the window tokens) and a vm_compute sweep over the table for the shape of every fingerprint key. The same clauses are evaluated on the implementation's return values (including attack strings extended by further tokens and every trailing comment style), and the pair and the per-context fingerprints are compared with the model.",
+         "model hand-written, tied by correspondence"),
  "C09": (TV, "wall-clock scaling of input families (16K/64K/256K), min-of-k",
          "Partial by nature (wall-clock). ~1 300 input families unit^n alone and behind fold-driving prefixes; a family is reported only when the 4x ratio exceeds 10 twice (at 64K and again at 256K, min of 3-5 runs) or the cost exceeds 1 us/byte. No cost theorem yet.",
          "cost semantics of the model not built"),
- "C10": (TV, "case-variant pairs on IsSQLi + correspondence", "For every input all-upper, all-lower and random case assignments outside the four exempt positions give the same (verdict, fingerprint).", "theorem pending"),
- "C11": (TV, "case / NUL-in-name variant pairs + correspondence", "Case variants (inputs without a case-variant of [CDATA[) leave IsXSS unchanged; a NUL inserted strictly inside a tag-name-open or attribute-name token leaves that context's verdict unchanged.", "theorem pending"),
- "C12": (TV, "cascade recomputed from per-context accessor on fresh states + correspondence", "IsSQLi compared with the gated cascade recomputed from per-context results on fresh states; quote-context == quote-prefixed as-is reading.", "theorem pending"),
+ "C10": (PROOF, "Coq lock-step theorem: case variants give equal IsSQLi results outside the case-sensitive neighbourhoods; + case-variant pairs on IsSQLi",
+         "C10_partial2: for all s, s' that are equal up to ASCII letter case, if s contains no backslash followed by N/n, no `$` followed by a letter and no q'L / Q'L with L a letter (plain2, a computed boolean; symmetric under case change and closed under suffixes) and `sp_password` occurs in both or in neither, then is_sqli s' = is_sqli s (verdict and fingerprint, including failure modes). Proved by a relational (lock-step) argument through all 22 lexers, the tokenizer loop, every folding rule, merge, the fingerprint, blacklist, whitelist and the cascade, with byte sweeps over the regenerated dispatch table and accept sets; the vm_compute examples show each excluded neighbourhood really flips the verdict. The clause for case changes elsewhere in inputs that do contain such a neighbourhood is left to the tie: all-upper / all-lower / random case assignments outside the exempt positions on IsSQLi, compared pairwise and with the model.",
+         "partial in the statement: inputs containing \\N, $letter or a letter q-quote delimiter are covered by sampling only; model hand-written, tied by correspondence"),
+ "C11": (PROOF, "Coq lock-step theorem: case variants give equal IsXSS results (no <![CDATA[ look-alike); + case / NUL-in-name variant pairs on IsXSS",
+         "C11a_case_insensitive: for all s, s' equal up to ASCII letter case, if s contains no occurrence of the 9 bytes <![CDATA[ in any letter case, then is_xss s' = is_xss s and likewise per context (lock-step over all 22 tokenizer states, the construct loops, the classifier, the decoder and the scheme matcher; byte sweeps for every predicate; Go's ToUpper / ToLower non-ASCII special cases are unaffected by ASCII case changes). The exclusion is necessary (examples in C11.v). Clause (b), NUL bytes inside element / attribute names, is checked on the implementation and against the model by variant pairs (a NUL inserted strictly inside a tag-name-open or attribute-name token leaves that context's verdict unchanged) and is not yet a theorem.",
+         "clause (b) tested only; model hand-written, tied by correspondence"),
+ "C12": (PROOF, "Coq theorem: IsSQLi = gated cascade of per-context readings on fresh states; + cascade recomputed on the implementation",
+         "C12a_cascade: for every input is_sqli = cascade, where cascade (Spec/CascadeSpec.v) is written only in terms of the per-context accessor on fresh states: none|ansi; none|mysql if the previous reading counted `#` or `--x`; single|ansi if the input contains '; single|mysql under the same gate; double|mysql if it contains \"; first firing reading wins; also given as a 5-row table with an interpreter (C12a_cascade_list). Each pass depends on the input only (the state is re-initialised) and keeps the input. Clause (b) (reading x inside a quote = reading quote+x as-is) is checked on the implementation (tokens shifted by one, equal fingerprints) and, when Properties/C12b.v is present, proved there. Tie: IsSQLi against the cascade recomputed from the per-context accessor, inputs biased to reach passes 2-5.",
+         "clause (b): see C12b.v if present, otherwise tested only; model hand-written, tied by correspondence"),
  "C13": (PROOF, "Coq theorems: IsXSS = OR of contexts; attribute context = embedding in a harmless tag; '<'-free prefixes irrelevant; + oracles on the implementation",
          "All three clauses are theorems about the model for all inputs: (a) is_xss = OR of the five context verdicts; (b) C13b_embed: the verdict of context 1/2/3/4 on s equals the data-state verdict on `<a ` ++ s, `<a b='` ++ s, `<a b=\"` ++ s, `<a b=\x60` ++ s (shift simulation of the tokenizer: a state over pre ++ s at offset >= |pre| and its twin over s take related steps; the two one-byte-back emissions and the offset-0 tests are handled by a position side condition that is shown to be self-maintaining); (c) C13c_prefix: prepending any '<'-free text does not change the data-state verdict. Tied to the code by per-context verdict correspondence and the same embeds / prefixes evaluated on the implementation.",
          "model hand-written, tied by correspondence"),
